@@ -43,6 +43,8 @@ public:
 private:
     std::unique_ptr<NameCatalog> catalog_;
     bool withinTypedef_;
+    bool skipDeclaratorNames_;
+    bool paramsAreInScope_;
 
     using SyntaxVisitor::visit;
     using Base = SyntaxVisitor;
@@ -52,6 +54,9 @@ private:
     //--------------//
     Action visitTranslationUnit(const TranslationUnitSyntax*) override;
     Action visitTypedefDeclaration(const TypedefDeclarationSyntax*) override;
+    Action visitFunctionDefinition(const FunctionDefinitionSyntax*) override;
+    Action visitFieldDeclaration(const FieldDeclarationSyntax*) override;
+    Action visitParameterDeclaration(const ParameterDeclarationSyntax*) override;
 
     /* Specifiers */
     Action visitTypedefName(const TypedefNameSyntax*) override;
